@@ -55,6 +55,7 @@ type c31EStep struct {
 	Size    int    `json:"size"`               // body bytes, 1..65535
 	RateKBs int    `json:"rate_kbs,omitempty"` // "slow": read rate of each upstream, KiB/s
 	PushMs  int    `json:"push_ms,omitempty"`  // after the burst keep offering packets back to back for this long (sustained overload)
+	ToDrop  bool   `json:"to_drop,omitempty"`  // the burst ends early, at the first dropped packet
 }
 
 type c31EPlan struct {
@@ -204,7 +205,7 @@ func (uc *c31UpConn) read(c net.Conn) {
 			f.seq = int64(seq)
 			size, ok := uc.sizeOf(seq)
 			if !ok {
-				f.errText = fmt.Sprintf("frame carries packet #%d which was never offered", seq)
+				f.errText = fmt.Sprintf("packet #%d arrived upstream although it was not accepted (counted as dropped, or never offered)", seq)
 			} else if want = c31EBody(want, seq, size); string(want) != string(body) {
 				f.errText = fmt.Sprintf("packet #%d arrived with %d bytes, differs from the %d bytes accepted", seq, len(body), size)
 			}
@@ -236,8 +237,9 @@ type c31EResult struct {
 }
 
 type c31EOffer struct {
-	size     int
-	accepted bool
+	seq   uint64
+	size  int
+	valid bool
 }
 
 func c31RunEgress(p c31EPlan) (res c31EResult) {
@@ -245,15 +247,21 @@ func c31RunEgress(p c31EPlan) (res c31EResult) {
 	tStart := time.Now()
 	var progress atomic.Int64
 	progress.Store(time.Now().UnixNano())
+	// ledger: only accepted packets are remembered (a sustained overload offers millions)
 	var offMu sync.Mutex
-	var offers []c31EOffer
+	accepted := map[uint64]int{} // seq -> body size
+	var pending c31EOffer        // the offer in flight: may already arrive upstream before it is booked
+	var nOffers uint64
 	sizeOf := func(seq uint64) (int, bool) {
 		offMu.Lock()
 		defer offMu.Unlock()
-		if seq >= uint64(len(offers)) {
-			return 0, false
+		if sz, ok := accepted[seq]; ok {
+			return sz, true
 		}
-		return offers[seq].size, true
+		if pending.valid && pending.seq == seq {
+			return pending.size, true
+		}
+		return 0, false
 	}
 	ups := make([]*c31Upstream, 2)
 	for i := range ups {
@@ -341,7 +349,7 @@ func c31RunEgress(p c31EPlan) (res c31EResult) {
 		case "slow":
 			for _, u := range ups {
 				u.stalled.Store(false)
-				u.rateKBs.Store(int64(max(st.RateKBs, 1024)))
+				u.rateKBs.Store(int64(max(st.RateKBs, 64)))
 			}
 		case "prim":
 			ups[primIdx].stalled.Store(true)
@@ -366,8 +374,9 @@ func c31RunEgress(p c31EPlan) (res c31EResult) {
 		}
 		offer := func() bool {
 			offMu.Lock()
-			seq := uint64(len(offers))
-			offers = append(offers, c31EOffer{size: size})
+			seq := nOffers
+			nOffers++
+			pending = c31EOffer{seq: seq, size: size, valid: true}
 			offMu.Unlock()
 			body = c31EBody(body, seq, size)
 			pkt = append(pkt[:pktHeadLen], body...)
@@ -383,7 +392,7 @@ func c31RunEgress(p c31EPlan) (res c31EResult) {
 			switch {
 			case s.ForwardedPackets == 1 && s.DroppedPackets == 0:
 				offMu.Lock()
-				offers[seq].accepted = true
+				accepted[seq] = size
 				offMu.Unlock()
 				nAccepted++
 			case s.ForwardedPackets == 0 && s.DroppedPackets == 1:
@@ -396,11 +405,11 @@ func c31RunEgress(p c31EPlan) (res c31EResult) {
 				}
 			default:
 				res.violation = fmt.Sprintf("step %d: one WritePacketLocked call changed Stats by forwarded=%d dropped=%d (want exactly one of them = 1)", si, s.ForwardedPackets, s.DroppedPackets)
-				return
+				return false
 			}
 			return true
 		}
-		for k := 0; k < st.Burst; k++ {
+		for k, d0 := 0, nDropped; k < st.Burst && !(st.ToDrop && nDropped > d0); k++ {
 			if !offer() {
 				return
 			}
@@ -422,7 +431,9 @@ func c31RunEgress(p c31EPlan) (res c31EResult) {
 	ups[1].stalled.Store(false)
 	if os.Getenv("VERIF_C31_DEBUG") != "" {
 		fmt.Fprintf(os.Stderr, "  calls done %v after start, dropped %d accepted %d\n", time.Since(tStart).Round(time.Millisecond), nDropped, nAccepted)
-		defer func() { fmt.Fprintf(os.Stderr, "  drained %v after start\n", time.Since(tStart).Round(time.Millisecond)) }()
+		defer func() {
+			fmt.Fprintf(os.Stderr, "  drained %v after start\n", time.Since(tStart).Round(time.Millisecond))
+		}()
 	}
 	if nDropped > 0 {
 		res.classes["packets-dropped"] = true
@@ -433,24 +444,31 @@ func c31RunEgress(p c31EPlan) (res c31EResult) {
 		res.nontrivial = true
 	}
 	// wait for everything accepted (and the drop report); stuck = no frame for c31StuckAfter
+	seen := map[int64]bool{}
+	type connPos struct {
+		done int
+		last int64
+	}
+	pos := map[*c31UpConn]*connPos{}
+	var reported float64
+	nReports := 0
 	check := func(final bool) (done bool, problem string) {
-		seen := map[int64]int{}
-		var reported float64
-		nReports := 0
+		wantKey := receiver.TCPPrefix + string(receiver.TCPMagicV2Balancer) + string(binary.LittleEndian.AppendUint32(nil, uint32(len(hostTag)))) + hostTag
 		for ui, u := range ups {
 			u.mu.Lock()
 			for ci, c := range u.conns {
-				if c.bad != "" {
+				if c.bad != "" && problem == "" {
 					problem = fmt.Sprintf("upstream %d connection %d: %s", ui, ci, c.bad)
 				}
-				if c.keyDone {
-					wantKey := receiver.TCPPrefix + string(receiver.TCPMagicV2Balancer) + string(binary.LittleEndian.AppendUint32(nil, uint32(len(hostTag)))) + hostTag
-					if string(c.key) != wantKey {
-						problem = fmt.Sprintf("upstream %d connection %d: handshake %q, want %q", ui, ci, c.key, wantKey)
-					}
+				if c.keyDone && string(c.key) != wantKey && problem == "" {
+					problem = fmt.Sprintf("upstream %d connection %d: handshake %q, want %q", ui, ci, c.key, wantKey)
 				}
-				last := int64(-1)
-				for _, f := range c.frames {
+				cp := pos[c]
+				if cp == nil {
+					cp = &connPos{last: -1}
+					pos[c] = cp
+				}
+				for _, f := range c.frames[cp.done:] { // frames are looked at once
 					if f.errText != "" && problem == "" {
 						problem = fmt.Sprintf("upstream %d connection %d: %s", ui, ci, f.errText)
 					}
@@ -459,12 +477,16 @@ func c31RunEgress(p c31EPlan) (res c31EResult) {
 						nReports++
 						continue
 					}
-					if f.seq <= last && problem == "" {
-						problem = fmt.Sprintf("upstream %d connection %d: packet #%d arrives after #%d (acceptance order broken)", ui, ci, f.seq, last)
+					if f.seq <= cp.last && problem == "" {
+						problem = fmt.Sprintf("upstream %d connection %d: packet #%d arrives after #%d (acceptance order broken)", ui, ci, f.seq, cp.last)
 					}
-					last = f.seq
-					seen[f.seq]++
+					cp.last = f.seq
+					if seen[f.seq] && problem == "" {
+						problem = fmt.Sprintf("packet #%d arrived more than once", f.seq)
+					}
+					seen[f.seq] = true
 				}
+				cp.done = len(c.frames)
 			}
 			if len(u.conns) > 1 {
 				res.classes["reconnected"] = true
@@ -474,28 +496,11 @@ func c31RunEgress(p c31EPlan) (res c31EResult) {
 		if problem != "" {
 			return true, problem
 		}
-		missing, firstMissing := 0, -1
-		offMu.Lock()
-		for seq, o := range offers {
-			n := seen[int64(seq)]
-			switch {
-			case n > 1:
-				problem = fmt.Sprintf("packet #%d arrived %d times", seq, n)
-			case n == 1 && !o.accepted:
-				problem = fmt.Sprintf("packet #%d was counted as dropped but arrived upstream", seq)
-			case n == 0 && o.accepted:
-				missing++
-				if firstMissing < 0 {
-					firstMissing = seq
-				}
-			}
-		}
-		offMu.Unlock()
-		if problem != "" {
-			return true, problem
-		}
+		// every frame that carried a packet was verified against the ledger by the reader (an unbooked
+		// packet is an errText above), so the accepted packets still missing are a matter of counting
+		missing := nAccepted - len(seen)
 		if reported != 0 && reported != droppedFrame && reported != droppedBody && (reported > droppedFrame || final) {
-			return true, fmt.Sprintf("drop reports add up to %v bytes, dropped were %d packets = %v frame bytes (%v body bytes)", reported, nDropped, droppedFrame, droppedBody)
+			return true, fmt.Sprintf("drop reports add up to %v bytes in %d reports, dropped were %d packets = %v frame bytes (%v body bytes)", reported, nReports, nDropped, droppedFrame, droppedBody)
 		}
 		reportOK := nDropped == 0 && reported == 0 || nDropped > 0 && (reported == droppedFrame || reported == droppedBody)
 		if missing == 0 && reportOK {
@@ -507,13 +512,21 @@ func c31RunEgress(p c31EPlan) (res c31EResult) {
 		if final {
 			what := ""
 			if missing > 0 {
+				firstMissing := int64(-1)
+				offMu.Lock()
+				for seq := range accepted {
+					if !seen[int64(seq)] && (firstMissing < 0 || int64(seq) < firstMissing) {
+						firstMissing = int64(seq)
+					}
+				}
+				offMu.Unlock()
 				what = fmt.Sprintf("%d of %d accepted packets never arrived (first missing #%d)", missing, nAccepted, firstMissing)
 			}
 			if !reportOK {
 				if what != "" {
 					what += "; "
 				}
-				what += fmt.Sprintf("%d drops (%v bytes) but the upstreams received reports for %v bytes", nDropped, droppedFrame, reported)
+				what += fmt.Sprintf("%d drops (%v bytes) but the upstreams received %d reports for %v bytes", nDropped, droppedFrame, nReports, reported)
 			}
 			return true, "stuck: " + what
 		}
@@ -568,7 +581,7 @@ func c31EgressProp(t vpT, c *c31ECase) (results []c31EResult) {
 			results[i] = c31RunEgress(c.Plans[i])
 			if os.Getenv("VERIF_C31_DEBUG") != "" {
 				b, _ := json.Marshal(c.Plans[i])
-				fmt.Fprintf(os.Stderr, "egress plan %d took %v: %s\n", i, time.Since(t0).Round(time.Millisecond), b)
+				fmt.Fprintf(os.Stderr, "egress plan %d took %v: %s\n    -> violation=%q inconclusive=%q\n", i, time.Since(t0).Round(time.Millisecond), b, results[i].violation, results[i].inconclusive)
 			}
 		}()
 	}
@@ -592,10 +605,12 @@ func c31EgressProp(t vpT, c *c31ECase) (results []c31EResult) {
 // back; drops, report writes and further drops overlap for several cycles; then everything drains.
 func c31GenSustained() *rapid.Generator[c31EPlan] {
 	return rapid.Custom(func(t *rapid.T) c31EPlan {
+		size := rapid.IntRange(60, 400).Draw(t, "size") // small packets: offering is fast, little memory is touched, many batches
 		return c31EPlan{Steps: []c31EStep{
-			{GapMs: rapid.IntRange(0, 100).Draw(t, "gap"), Burst: rapid.IntRange(1, 40).Draw(t, "warm"), Size: rapid.IntRange(12, 2000).Draw(t, "size")},
-			{Stall: "slow", RateKBs: rapid.SampledFrom([]int{20 << 10, 40 << 10, 80 << 10, 160 << 10}).Draw(t, "rate"),
-				PushMs: rapid.IntRange(1200, 2200).Draw(t, "pushms"), Size: rapid.IntRange(60000, pktBodyMax).Draw(t, "bigsize")},
+			{GapMs: rapid.IntRange(0, 100).Draw(t, "gap"), Burst: rapid.IntRange(1, 40).Draw(t, "warm"), Size: size},
+			{Stall: "both", Burst: 60000, ToDrop: true, Size: size}, // fill the balancer's and the kernel's buffers
+			{Stall: "slow", RateKBs: rapid.SampledFrom([]int{512, 1 << 10, 2 << 10, 4 << 10}).Draw(t, "rate"),
+				PushMs: rapid.IntRange(1200, 2000).Draw(t, "pushms"), Size: size},
 			{Stall: "none", GapMs: rapid.IntRange(0, 300).Draw(t, "gap2"), Burst: rapid.IntRange(0, 3).Draw(t, "tail"), Size: rapid.IntRange(12, 200).Draw(t, "tailsize")},
 		}}
 	})
@@ -669,10 +684,11 @@ func TestVerifC31Egress(t *testing.T) {
 	ev := vpNewEv(t, "C31", "egress")
 	rapid.Check(t, func(rt *rapid.T) {
 		c := &c31ECase{}
-		// every batch: one sustained-overload plan and at most one flood plan (each first-touches ~100 MB)
-		c.Plans = append(c.Plans, c31GenSustained().Draw(rt, "sustained"))
+		// every batch: two sustained-overload plans (small packets: cheap in memory, one busy producer
+		// each) and at most one flood plan (first-touches ~100 MB)
+		c.Plans = append(c.Plans, c31GenSustained().Draw(rt, "sustained"), c31GenSustained().Draw(rt, "sustained"))
 		floods := 0
-		for i := 1; i < c31EPlansPerCase; i++ {
+		for i := 2; i < c31EPlansPerCase; i++ {
 			p := c31GenEPlan(floods < 1).Draw(rt, "plan")
 			for _, st := range p.Steps {
 				if st.Stall == "both" {
